@@ -138,6 +138,15 @@ def store(route, obj, shape, signed, n_word, n_frac, **cfg):
     if route == 'ctor':
         return Fxp(obj, signed, n_word, n_frac, **cfg)
     x = Fxp(np.zeros(shape, dtype=int) if shape != () else None, signed, n_word, n_frac, **cfg)
+    if (n_word * 7 + n_frac * 3 + len(shape)) % 3 == 0 and n_word <= 60:
+        # a destination with a past (content-determined): codes beyond both bounds were stored into it (both sticky flags are up),
+        # it was read and used in every way; the store under test is just the next write
+        from .arith import warm
+        hi = (1 << (n_word - 1)) - 1 if signed else (1 << n_word) - 1
+        lo = -(1 << (n_word - 1)) if signed else 0
+        for c in (hi + 3, lo - 3):
+            x.set_val(c if shape == () else np.full(shape, c, dtype=object), raw=True)
+        warm(x)
     if route == 'call':
         r = x(obj)
         assert r is x
